@@ -200,7 +200,10 @@ def nontrivial(script):
 
 
 def project(script, i, o):
-    return (o.kind, None if o.reply is None else runner.DATE_RE.sub(b"\nDate: X\n", o.reply))
+    if o.reply is None:
+        return (o.kind, None)
+    return (o.kind,) + tuple(runner.DATE_RE.sub(b"\nDate: X\n", x) if isinstance(x, (bytes, bytearray)) else x
+                             for x in net.norm_frame(o.reply))
 
 
 def evaluate_custom(scripts, drivers):
